@@ -155,6 +155,44 @@ pub fn worker(args: &[String]) -> i32 {
   }
 }
 
+/// The executable the crash workers are started from: a hard link to this
+/// process' binary taken once per run, so that a rebuild of the harness by a
+/// concurrent `./check` cannot pull the file from under a long run. Stale
+/// links of dead processes are removed.
+fn worker_exe() -> std::io::Result<std::path::PathBuf> {
+  static EXE: std::sync::OnceLock<std::path::PathBuf> = std::sync::OnceLock::new();
+  if let Some(path) = EXE.get() {
+    return Ok(path.clone());
+  }
+  let current = std::env::current_exe()?;
+  let dir = current.parent().map(|p| p.to_path_buf()).unwrap_or_default();
+  if let Ok(entries) = std::fs::read_dir(&dir) {
+    for entry in entries.flatten() {
+      let name = entry.file_name().to_string_lossy().to_string();
+      if let Some(pid) = name.strip_prefix("ordverif-c13-") {
+        if !std::path::Path::new("/proc").join(pid).exists() {
+          let _ = std::fs::remove_file(entry.path());
+        }
+      }
+    }
+  }
+  let link = dir.join(format!("ordverif-c13-{}", std::process::id()));
+  let _ = std::fs::remove_file(&link);
+  let path = match std::fs::hard_link(&current, &link) {
+    Ok(()) => link,
+    Err(_) => current,
+  };
+  Ok(EXE.get_or_init(|| path).clone())
+}
+
+pub fn remove_worker_exe() {
+  if let Ok(current) = std::env::current_exe() {
+    if let Some(dir) = current.parent() {
+      let _ = std::fs::remove_file(dir.join(format!("ordverif-c13-{}", std::process::id())));
+    }
+  }
+}
+
 fn harness<E: std::fmt::Display>(what: &str) -> impl Fn(E) -> Fail + '_ {
   move |e| Fail::new("HARNESS-FAULT", format!("{what}: {e:#}"))
 }
@@ -188,7 +226,7 @@ fn c13_check(case: &CrashCase, cx: &Cx) -> CheckResult {
   let index_dir = dir.path().join("data");
   std::fs::create_dir_all(&index_dir).map_err(harness("mkdir"))?;
   std::fs::write(&case_file, serde_json::to_string(case).unwrap()).map_err(harness("write case"))?;
-  let exe = std::env::current_exe().map_err(harness("current_exe"))?;
+  let exe = worker_exe().map_err(harness("worker executable"))?;
   let status = Command::new("sh")
     .arg("-c")
     .arg("ulimit -c 0; exec \"$0\" \"$@\"")
@@ -366,6 +404,7 @@ pub fn c13(s: &mut Session) -> Meta {
       .shrink_iters(60)
       .timeout(400),
   );
+  remove_worker_exe();
   Meta {
     level: "fault_enumeration",
     rule: "Fault space: 13 crash points on the indexing path (block.before, block.after_utxo, block.after_runes, commit.before, commit.after_first, commit.after_second, savepoint.before_delete, savepoint.after_delete_commit, savepoint.after_create, savepoint.after_create_commit, reorg.before_restore, reorg.after_restore, reorg.after_commit) x occurrence 1..6 x generated histories (mixed-profile chains of 2..9 blocks (thorough ..23) plus an empty prefix of 0/4/9 blocks, commit interval 1..4 or 5000, savepoint interval 2..10, 1..4 update calls, in 40% a reorganisation of depth 1..8 followed by another update). A worker process runs the history with the point armed and is killed by abort(). A fresh process image then opens the index: it must open, its headers must be a prefix of the old or the new branch, and its masked dump must equal a from-scratch index of exactly that many blocks (a fully committed height); continuing to the tip must give the masked dump of an uninterrupted from-scratch run (or, with a reorganisation, report it unrecoverable). Non-trivial = the armed point actually fired and the reopened index was behind the tip or a reorganisation was involved; distinct by case.",
